@@ -480,8 +480,10 @@ def _special_cases():
     out = []
     for n in (1, 2, 3):
         out.append({"kind": "special", "what": "prl-shot-cycle", "n": n})
-    for how in ("self", "pair", "to-first"):
+    for how in ("self", "pair", "to-first", "unaligned-self", "unaligned-pair"):
         out.append({"kind": "special", "what": "hyperv-objtable-cycle", "how": how})
+    out.append({"kind": "special", "what": "vmdk-bomb-x-header-fields"})
+    out.append({"kind": "special", "what": "qcow2-bomb-x-header-fields"})
     out.append({"kind": "special", "what": "hyperv-parent-cycle"})
     for tgt in ("l1", "header", "self"):
         out.append({"kind": "special", "what": "qcow2-l2-points-at", "target": tgt})
@@ -514,6 +516,22 @@ def _run_special(case, ctx):
         return _execute(ctx, case, None, files, subject, drv_hdd_dir, {}, sum(len(v) for v in files.values()))
     if what in ("hyperv-objtable-cycle", "hyperv-parent-cycle"):
         tree = {"configuration": (BHV.T_NODE, {"a": (BHV.T_INT, 1), "n": (BHV.T_NODE, {"s": (BHV.T_STR, "x")})})}
+        how = case.get("how", "")
+        if how.startswith("unaligned"):
+            # references to offsets that are not multiples of the header alignment: 0x2000 -> 0x3001 (-> 0x3001 ...)
+            raw = bytearray(BHV.build(tree, ntables=1))
+            tab = BHV.objtable([(1, 0x3001, 0x1000, 1)] if how == "unaligned-self" else [(1, 0x5001, 0x1000, 1)])
+            tab2 = BHV.objtable([(1, 0x3001, 0x1000, 1)])
+            for base in (0x3001, 0x4000, 0x5001, 0x6000):
+                t = tab if base in (0x3001, 0x4000) else tab2
+                raw[base:base + len(t)] = t
+            sig, n = struct.unpack_from("<II", raw, 0x2000)
+            for i in range(n):
+                b = 0x2008 + 18 * i
+                if raw[b] == 4 or raw[b + 17] == 0:
+                    raw[b:b + 18] = struct.pack("<BIQIB", 1, 0, 0x3001, 0x1000, 1)
+                    break
+            return _execute(ctx, case, _seed("hyperv"), bytes(raw), subject, drv_hyperv, {})
         raw = bytearray(BHV.build(tree, ntables=1, second_object_table=what == "hyperv-objtable-cycle" and case["how"] != "self"))
         if what == "hyperv-parent-cycle":
             # the first entry names itself as its parent
@@ -569,6 +587,41 @@ def _run_special(case, ctx):
         nb = (host + len(bomb) - 1) // 512 - host // 512
         struct.pack_into(">Q", raw, f, (1 << 62) | (min(nb, 255) << x) | host)
         return _execute(ctx, case, _seed("qcow2.std"), bytes(raw), subject, drv_qcow2, {}, len(raw))
+    if what in ("vmdk-bomb-x-header-fields", "qcow2-bomb-x-header-fields"):
+        # a bomb combined with every single fault of every header field (two cooperating sites: the limit and its source)
+        if what.startswith("vmdk"):
+            img = BM.build_hosted([BM.CDATA, DATA], [0, 1], 8, 512, 16, footer=True, compressed=True, stride=640)
+            raw = bytearray(img.tobytes())
+            f = [x for x in img.fields if x[0] == "gt[0][0]"][0][1]
+            sec, = struct.unpack_from("<I", raw, f)
+            bomb = zlib.compress(b"\0" * (4096 * 16384), 9)
+            rec = struct.pack("<QI", 0, len(bomb)) + bomb
+            raw[sec * 512:sec * 512 + len(rec)] = rec
+            seed = dict(name="vmdk.bomb", raw=bytes(raw), fields=[x for x in img.fields if x[4] == "header"], drv=drv_vmdk, kw={})
+            base_seed = _seed("vmdk.stream")
+        else:
+            img, _ = BQ.build(["C", "N"], [None, 0], 16, 3)
+            raw = bytearray(img.tobytes())
+            f = [x for x in img.fields if x[0] == "l2[0][0]"][0][1]
+            e, = struct.unpack_from(">Q", raw, f)
+            x = 62 - 8
+            host = e & ((1 << x) - 1)
+            bomb = BQ.raw_deflate(b"\0" * (65536 * 1024), 9)
+            if host + len(bomb) > len(raw):
+                raw += b"\0" * (host + len(bomb) - len(raw))
+            raw[host:host + len(bomb)] = bomb
+            nb = (host + len(bomb) - 1) // 512 - host // 512
+            struct.pack_into(">Q", raw, f, (1 << 62) | (min(nb, 255) << x) | host)
+            seed = dict(name="qcow2.bomb", raw=bytes(raw), fields=[x for x in img.fields if x[4] == "header"], drv=drv_qcow2, kw={})
+            base_seed = _seed("qcow2.std")
+        only = case.get("only")
+        for n, (name, off, val) in enumerate(_field_faults(seed)):
+            if only is not None and only != n:
+                continue
+            data = seed["raw"][:off] + val + seed["raw"][off + len(val):]
+            if not _execute(ctx, dict(case, only=n, fault=[name, off, val.hex()]), base_seed, data, subject, seed["drv"], {}, len(data)):
+                return
+        return
     if what == "vmdk-bomb":
         img = BM.build_hosted([BM.CDATA, DATA], [0, 1], 8, 512, 16, footer=True, compressed=True, stride=640)
         raw = bytearray(img.tobytes())
